@@ -40,6 +40,14 @@ def mirror_table(rep, F, fn, sink_pat, rule='R-SIGN'):
         return 0
     sign_t = call_term(paths, r'BigDecimal::sign$|BigInt::sign$')
     mode_t = call_term(paths, r'Context::rounding_mode$')
+    ctxp0 = T('param', R.ctx_param_index(fn))
+    if mode_t is None:
+        # the mode read straight from the context's field instead of through its accessor
+        for atoms, out in paths:
+            for term, _ in atoms:
+                for s_ in TB.subterms(term):
+                    if s_ and s_[0] == 'field' and s_[2] == 'rounding' and TB.deref(s_[1]) == ctxp0:
+                        mode_t = s_
     if sign_t is None or mode_t is None:
         rep.violation(rule, key, 'the result is re-signed after rounding but no dispatch on (sign, rounding mode) selects a mirrored mode: Floor/Ceiling act in the wrong direction for negative numbers', fn.where())
         return 1
@@ -81,6 +89,11 @@ def mirror_table(rep, F, fn, sink_pat, rule='R-SIGN'):
                 where M may be a literal variant or the caller's own mode (rounding_mode(ctx)) handed back"""
                 a = TB.deref(a)
                 if a == ctxp:
+                    return mode
+                # the mode handed over loose (beside the precision) instead of inside a context
+                if a[0] == 'adt' and str(a[1]).endswith('RoundingMode') and not a[3]:
+                    return a[2]
+                if a == TB.deref(mode_t) or (TB.is_call(a, r'Context::rounding_mode$') and TB.deref(a[2][0]) == ctxp) or (a[0] == 'field' and a[2] == 'rounding' and TB.deref(a[1]) == ctxp):
                     return mode
                 if TB.is_call(a, r'Context::with_rounding_mode$') and TB.deref(a[2][0]) == ctxp:
                     mm = TB.deref(a[2][1])
